@@ -78,7 +78,9 @@ func NewC04(raw json.RawMessage) (explore.Run, error) {
 
 func (r *c04run) openSessions() error {
 	r.sess = nil
-	for _, sel := range []string{"INBOX", "m2"} {
+	// session 2 has nothing selected: it survives what invalidates selected states (a UIDVALIDITY bump, the deletion of
+	// the selected mailbox) and issues namespace commands
+	for _, sel := range []string{"INBOX", "m2", ""} {
 		s, err := r.w.Connect()
 		if err != nil {
 			return err
@@ -86,8 +88,10 @@ func (r *c04run) openSessions() error {
 		if res := r.w.Login(s, 0); !res.OK() {
 			return fmt.Errorf("login failed")
 		}
-		if res := s.C.Cmd("SELECT " + sel); res.OK() {
-			s.Selected = sel
+		if sel != "" {
+			if res := s.C.Cmd("SELECT " + sel); res.OK() {
+				s.Selected = sel
+			}
 		}
 		r.sess = append(r.sess, s)
 	}
